@@ -305,7 +305,20 @@ func genKv(r *rand.Rand, tier string) kvInput {
 	}
 	// concentrate on one or two keys so histories collide
 	hot := kvKeys[:1+r.Intn(len(kvKeys))]
+	motifAt, motif := -1, -1
+	if r.Intn(5) < 2 {
+		motifAt, motif = r.Intn(n), r.Intn(numMotifs)
+		if motif == motifDDocSwap {
+			in.Handles = 2
+		}
+		if motif == motifDropNewest {
+			in.OnDisk = true
+		}
+	}
 	for i := 0; i < n; i++ {
+		if i == motifAt {
+			genMotif(r, motif, &in, exists, hot, next, func() uint64 { return clock })
+		}
 		var live []string
 		for _, cn := range kvColls {
 			if exists[cn] {
@@ -397,6 +410,242 @@ func genKv(r *rand.Rand, tier string) kvInput {
 		}
 	}
 	return in
+}
+
+// ---------------------------------------------------------------------------------------------
+// Motifs: short scripted interactions between entry points, spliced into a random history at a random
+// place (two cases in five).  Each is a family of sequences, not one sequence: the calls, values and CAS
+// modes inside are drawn at random.  They raise the frequency of interactions which the uniform generator
+// reaches rarely: a value that is present but empty, a tombstone that is written to and re-inserted,
+// a design document replaced through another handle, the newest CAS living in a collection that is
+// dropped, an expiry that is moved, WithMeta writes under a view, purge between index updates.
+const (
+	motifEmptyBody = iota
+	motifTombstoneCycle
+	motifDDocSwap
+	motifDropNewest
+	motifExpiryMove
+	motifWithMetaView
+	motifPurgeIndex
+	numMotifs
+)
+
+func genMotif(r *rand.Rand, m int, in *kvInput, exists map[string]bool, hot []string, next func() uint64, same func() uint64) {
+	var live []string
+	for _, cn := range kvColls {
+		if exists[cn] {
+			live = append(live, cn)
+		}
+	}
+	cn := pick(r, live)
+	h := r.Intn(in.Handles)
+	if cn == "s1.c2" {
+		h = 0
+	}
+	key := pick(r, hot)
+	kv := func(op *KOp) { in.Ops = append(in.Ops, Step{Kind: "kv", Coll: cn, Key: key, Handle: h, Op: op, Clock: next()}) }
+	view := func(hh int, name string, vp *ViewParams) {
+		in.Ops = append(in.Ops, Step{Kind: "view", Coll: cn, Handle: hh, DDoc: "dd", View: name, VP: vp, Clock: next()})
+	}
+	xattrWrite := func() *KOp {
+		switch r.Intn(4) {
+		case 0:
+			return &KOp{Kind: "SetXattrs", Xs: genXs(r, false)}
+		case 1:
+			return &KOp{Kind: "UpdateXattrs", CasMode: "current", Xs: genXs(r, false), Macros: genMacros(r)}
+		case 2:
+			return &KOp{Kind: "WriteUpdateWithXattrs", Cb: &Callback{Kind: "result", Xs: genXs(r, false)}}
+		default:
+			return &KOp{Kind: "RemoveXattrs", Names: []string{pick(r, kvXnames)}, CasMode: "current"}
+		}
+	}
+	bodyWrite := func() *KOp {
+		switch r.Intn(6) {
+		case 0:
+			return &KOp{Kind: "WriteCas", CasMode: "current", Val: sp(pick(r, jsonBodies))}
+		case 1:
+			return &KOp{Kind: "WriteCas", CasMode: "current", Append: true, Val: sp("x")}
+		case 2:
+			return &KOp{Kind: "Update", Cb: &Callback{Kind: "set", Val: sp(pick(r, jsonBodies))}}
+		case 3:
+			return &KOp{Kind: "WriteSubDoc", Path: pick(r, subdocPaths), CasMode: pick(r, []string{"zero", "current"}), Val: sp(pick(r, subdocVals[:3]))}
+		case 4:
+			return &KOp{Kind: "Set", Preserve: r.Intn(2) == 0, Val: sp(pick(r, jsonBodies))}
+		default:
+			return &KOp{Kind: "Incr", Amt: 1, Deflt: 5}
+		}
+	}
+	deleter := func() *KOp {
+		switch r.Intn(7) {
+		case 0:
+			return &KOp{Kind: "Delete"}
+		case 1:
+			return &KOp{Kind: "Remove", CasMode: "current"}
+		case 2:
+			return &KOp{Kind: "DeleteWithXattrs", Names: []string{pick(r, kvXnames)}}
+		case 3:
+			return &KOp{Kind: "WriteTombstoneWithXattrs", CasMode: "current", Xs: genXs(r, false), DeleteBody: true}
+		case 4:
+			return &KOp{Kind: "Update", Cb: &Callback{Kind: "delete"}}
+		case 5:
+			return &KOp{Kind: "WriteCas", CasMode: "current"}
+		default:
+			return &KOp{Kind: "UpdateXattrDeleteBody", Name: pick(r, kvXnames), CasMode: "current", Val: sp(pick(r, xattrVals))}
+		}
+	}
+	inserter := func() *KOp {
+		switch r.Intn(5) {
+		case 0:
+			return &KOp{Kind: "Add", Exp: genExp(r), Val: sp(pick(r, jsonBodies))}
+		case 1:
+			return &KOp{Kind: "AddRaw", Val: sp(pick(r, rawBodies))}
+		case 2:
+			return &KOp{Kind: "WriteCas", CasMode: "zero", AddOnly: true, Val: sp(pick(r, jsonBodies))}
+		case 3:
+			return &KOp{Kind: "WriteResurrectionWithXattrs", Xs: genXs(r, false), Val: sp(pick(r, jsonBodies))}
+		default:
+			return &KOp{Kind: "WriteWithXattrs", CasMode: "zero", Xs: genXs(r, false), Val: sp(pick(r, jsonBodies))}
+		}
+	}
+	read := func() *KOp {
+		return &KOp{Kind: pick(r, []string{"GetWithXattrs", "GetXattrs"}), Names: append([]string{}, kvXnames...)}
+	}
+	switch m {
+	case motifEmptyBody:
+		switch r.Intn(3) {
+		case 0:
+			kv(&KOp{Kind: "Delete"})
+			kv(&KOp{Kind: "AddRaw", Val: sp("")})
+		case 1:
+			kv(&KOp{Kind: "SetRaw", Val: sp("")})
+		default:
+			kv(&KOp{Kind: "WriteCas", CasMode: "current", Raw: true, Val: sp("")})
+		}
+		for j := 0; j < 1+r.Intn(2); j++ {
+			kv(xattrWrite())
+		}
+		kv(bodyWrite())
+		kv(read())
+		if r.Intn(2) == 0 {
+			kv(inserter())
+		}
+	case motifTombstoneCycle:
+		kv(inserter())
+		if r.Intn(2) == 0 {
+			kv(xattrWrite())
+		}
+		kv(deleter())
+		if r.Intn(2) == 0 {
+			kv(xattrWrite())
+		}
+		kv(inserter())
+		kv(inserter())
+		kv(read())
+		if r.Intn(2) == 0 {
+			kv(deleter())
+			kv(bodyWrite())
+		}
+	case motifDDocSwap:
+		a, b := 0, 1
+		if r.Intn(2) == 0 {
+			a, b = 1, 0
+		}
+		if cn == "s1.c2" {
+			cn = "_default._default"
+		}
+		perm := r.Perm(len(mapSources))
+		put := func(hh int, m0 int) {
+			in.Ops = append(in.Ops, Step{Kind: "putddoc", Coll: cn, Handle: hh, DDoc: "dd", Views: []ViewDef{{Name: "v0", Map: m0}, {Name: "v1", Map: perm[2]}}, Clock: next()})
+		}
+		h = b
+		put(b, perm[0])
+		kv(&KOp{Kind: "Set", Val: sp(pick(r, jsonBodies))})
+		kv(&KOp{Kind: "SetXattrs", Xs: []XKV{{Name: "_sync", Val: sp(pick(r, xattrVals))}}})
+		view(a, "v0", &ViewParams{})
+		if r.Intn(3) == 0 {
+			in.Ops = append(in.Ops, Step{Kind: "delddoc", Coll: cn, Handle: b, DDoc: "dd", Clock: next()})
+		} else {
+			put(b, perm[1])
+		}
+		if r.Intn(2) == 0 {
+			key = pick(r, kvKeys)
+			kv(&KOp{Kind: "Set", Val: sp(pick(r, jsonBodies))})
+		}
+		view(a, "v0", &ViewParams{})
+		view(b, "v0", &ViewParams{})
+	case motifDropNewest:
+		if !exists["s1.c2"] {
+			in.Ops = append(in.Ops, Step{Kind: "create", Coll: "s1.c2", Clock: next()})
+			exists["s1.c2"] = true
+		}
+		cn, h = "s1.c2", 0
+		kv(&KOp{Kind: "Set", Val: sp(pick(r, jsonBodies))})
+		in.Ops = append(in.Ops, Step{Kind: "drop", Coll: "s1.c2", Clock: same()})
+		exists["s1.c2"] = false
+		in.Ops = append(in.Ops, Step{Kind: "reopen", Clock: same()})
+		cn = "_default._default"
+		in.Ops = append(in.Ops, Step{Kind: "kv", Coll: cn, Key: key, Handle: 0, Op: &KOp{Kind: "Set", Val: sp(pick(r, jsonBodies))}, Clock: same()})
+		if r.Intn(2) == 0 {
+			in.Ops = append(in.Ops, Step{Kind: "create", Coll: "s1.c2", Clock: same()})
+			exists["s1.c2"] = true
+			in.Ops = append(in.Ops, Step{Kind: "kv", Coll: "s1.c2", Key: key, Handle: 0, Op: &KOp{Kind: "Add", Val: sp(pick(r, jsonBodies))}, Clock: same()})
+		}
+	case motifExpiryMove:
+		kv(&KOp{Kind: pick(r, []string{"Set", "Add"}), Exp: pick(r, farExps), Val: sp(pick(r, jsonBodies))})
+		switch r.Intn(4) {
+		case 0:
+			kv(&KOp{Kind: "Touch", Exp: pick(r, pastExps)})
+		case 1:
+			kv(&KOp{Kind: "GetAndTouchRaw", Exp: pick(r, pastExps)})
+		case 2:
+			kv(&KOp{Kind: "Update", Cb: &Callback{Kind: "exponly", NewExp: u32p(pick(r, pastExps))}})
+		default:
+			kv(&KOp{Kind: "Set", Preserve: true, Val: sp(pick(r, jsonBodies))})
+			kv(&KOp{Kind: "Touch", Exp: 0})
+		}
+		if r.Intn(2) == 0 {
+			kv(xattrWrite())
+		}
+		in.Ops = append(in.Ops, Step{Kind: "expire", Clock: next()})
+		kv(read())
+		kv(inserter())
+	case motifWithMetaView:
+		if cn == "s1.c2" {
+			cn = "_default._default"
+		}
+		in.Ops = append(in.Ops, Step{Kind: "putddoc", Coll: cn, Handle: h, DDoc: "dd", Views: []ViewDef{{Name: "v0", Map: r.Intn(len(mapSources))}, {Name: "v1", Map: 1}}, Clock: next()})
+		kv(&KOp{Kind: "Set", Val: sp(pick(r, jsonBodies))})
+		view(h, "v0", &ViewParams{})
+		x := []XKV{{Name: "_sync", Val: sp(pick(r, xattrVals))}}
+		kv(&KOp{Kind: "SetWithMeta", CasMode: pick(r, []string{"current", "zero"}), NewCas: pick(r, []uint64{5000, 1 << 30, 1<<61 + 9}) + uint64(r.Intn(50)), Val: sp(pick(r, jsonBodies)), IsJSON: true, XObj: &x})
+		view(h, pick(r, []string{"v0", "v1"}), &ViewParams{})
+		if r.Intn(2) == 0 {
+			kv(&KOp{Kind: "DeleteWithMeta", CasMode: "current", NewCas: 5600 + uint64(r.Intn(50))})
+		} else {
+			kv(bodyWrite())
+		}
+		in.Ops = append(in.Ops, Step{Kind: "dump", Coll: cn, Key: key, Start: "zero", Clock: next()})
+		view(h, "v0", &ViewParams{})
+		view(h, "v1", &ViewParams{})
+	case motifPurgeIndex:
+		if cn == "s1.c2" {
+			cn = "_default._default"
+		}
+		in.Ops = append(in.Ops, Step{Kind: "putddoc", Coll: cn, Handle: h, DDoc: "dd", Views: []ViewDef{{Name: "v0", Map: 1}, {Name: "v1", Map: 2}}, Clock: next()})
+		kv(inserter())
+		kv(xattrWrite())
+		view(h, "v0", &ViewParams{})
+		kv(deleter())
+		if r.Intn(2) == 0 {
+			view(h, "v1", &ViewParams{})
+		}
+		in.Ops = append(in.Ops, Step{Kind: "purge", Handle: h, Clock: next()})
+		view(h, "v0", &ViewParams{Stale: r.Intn(3) == 0})
+		in.Ops = append(in.Ops, Step{Kind: "query", Coll: cn, Handle: h, Q: pick(r, []string{"QIds", "QCount", "QSync"}), Clock: next()})
+		kv(inserter())
+		view(h, "v1", &ViewParams{})
+		in.Ops = append(in.Ops, Step{Kind: "dump", Coll: cn, Key: key, Start: "zero", Clock: next()})
+	}
 }
 
 func runKv(cfg runCfg, emit func(Case)) error {
